@@ -639,11 +639,14 @@ pub fn build_dict(ops: Vec<DOp>) -> Dictionary {
             }
         }
     }
-    let refs: Vec<&str> = lead.iter().map(|s| s.as_str()).collect();
+    // a document whose text is the library's own built-in document is passed the way programs pass it: as the static
+    // DEFAULT_DICT_XML itself, not as a copy of its text
+    let builtin: &'static str = &diameter::dictionary::DEFAULT_DICT_XML;
+    let refs: Vec<&str> = lead.iter().map(|s| if s.as_str() == builtin { builtin } else { s.as_str() }).collect();
     let mut d = Dictionary::new(&refs);
     for o in rest {
         match o {
-            DOp::Load(x) => d.load_xml(&x),
+            DOp::Load(x) => d.load_xml(if x.as_str() == builtin { builtin } else { &x }),
             DOp::Add(a) => d.add_avp(a),
         }
     }
